@@ -22,6 +22,9 @@ struct Case {
     raw: bool,
     /// explicit bound(..) without `..`: 0 none, 1 on the type (`Clone(bound(T: Clone))`), 2 on the first field
     bound: usize,
+    /// concrete flavours: 0 none, 1 field type `RecI` (inherent methods named clone / clone_from), 2 tuple-typed
+    /// fields `(Rec, u8)`, 3 `#[repr(C)]` on the item
+    special: usize,
     entry: Entry,
 }
 
@@ -31,7 +34,11 @@ fn gen(ch: &mut Ch, thorough: bool) -> Option<Case> {
     let with_copy = ch.flag();
     let raw = ch.flag();
     let bound = ch.pick(3);
+    let special = ch.pick(4);
     let entry = *ch.of(&Entry::BOTH);
+    if special != 0 && (generic || with_copy || raw || bound != 0 || shape.total_fields() == 0 || entry == Entry::Derive && shape.variants.len() > 1) {
+        return None;
+    }
     if raw && (generic || with_copy || entry == Entry::Derive || !shape.variants.iter().any(|v| v.kind == SKind::Named && v.n > 0)) {
         return None;
     }
@@ -50,11 +57,15 @@ fn gen(ch: &mut Ch, thorough: bool) -> Option<Case> {
     if thorough && shape.variants.len() == 4 && (generic || entry == Entry::Derive) {
         return None;
     }
-    Some(Case { vector: ch.vector(), shape, generic, with_copy, raw, bound, entry })
+    Some(Case { vector: ch.vector(), shape, generic, with_copy, raw, bound, special, entry })
 }
 
 fn field_ty(c: &Case, _vi: usize, fi: usize) -> String {
-    if c.with_copy {
+    if c.special == 1 {
+        "RecI".into()
+    } else if c.special == 2 {
+        "(Rec, u8)".into()
+    } else if c.with_copy {
         "RecC".into()
     } else if !c.generic {
         "Rec".into()
@@ -65,7 +76,11 @@ fn field_ty(c: &Case, _vi: usize, fi: usize) -> String {
     }
 }
 fn field_val(c: &Case, fi: usize, id: u32) -> String {
-    if c.with_copy {
+    if c.special == 1 {
+        format!("RecI({id})")
+    } else if c.special == 2 {
+        format!("(Rec({id}), 7u8)")
+    } else if c.with_copy {
         format!("RecC({id})")
     } else if !c.generic || fi % 2 == 0 {
         format!("Rec({id})")
@@ -97,15 +112,15 @@ fn build_inner(c: &Case, tier: &str) -> XCase {
     };
     let selfty = if c.generic { "X<Rec>" } else { "X" };
     let mut s = String::new();
-    s.push_str("use derive_ex::{derive_ex, Ex};\nuse dxrt::{Rec, RecC, RecG, take_log, take_log_str};\n");
-    s.push_str(&format!("{head}\n{}\ntype S = {selfty};\n", item.print()));
+    s.push_str("use derive_ex::{derive_ex, Ex};\nuse dxrt::{Rec, RecC, RecG, RecI, take_log, take_log_str};\n");
+    s.push_str(&format!("{head}\n{}{}\ntype S = {selfty};\n", if c.special == 3 { "#[repr(C)]\n" } else { "" }, item.print()));
     // view
     s.push_str("fn view(x: &S) -> String {\n    match x {\n");
     for vi in 0..sh.variants.len() {
         let n = sh.variants[vi].n;
         let binders: Vec<String> = (0..n).map(|i| format!("b{i}")).collect();
         let pat = sh.ctor(vi, &binders);
-        let parts: Vec<String> = (0..n).map(|i| format!("b{i}.0.to_string()")).collect();
+        let parts: Vec<String> = (0..n).map(|i| if c.special == 2 { format!("(b{i}.0).0.to_string()") } else { format!("b{i}.0.to_string()") }).collect();
         s.push_str(&format!("        {pat} => format!(\"{}[{{}}]\", [{}].join(\",\")),\n", sh.vname(vi), if parts.is_empty() { "String::new()".to_string() } else { parts.join(", ") }));
     }
     s.push_str("    }\n}\n");
@@ -128,7 +143,7 @@ fn build_inner(c: &Case, tier: &str) -> XCase {
     }
     for va in 0..nv {
         for vb in 0..nv {
-            let log: Vec<String> = if va == vb { ids(0, va, sh.variants[va].n).iter().zip(ids(100, vb, sh.variants[vb].n)).map(|(a, b)| format!("clone_from({a}<-{b})")).collect() } else { ids(100, vb, sh.variants[vb].n).iter().map(|i| format!("clone({i})")).collect() };
+            let log: Vec<String> = if va == vb && c.special != 2 { ids(0, va, sh.variants[va].n).iter().zip(ids(100, vb, sh.variants[vb].n)).map(|(a, b)| format!("clone_from({a}<-{b})")).collect() } else { ids(100, vb, sh.variants[vb].n).iter().map(|i| format!("clone({i})")).collect() };
             exp.push_str(&format!("clone_from {}<-{}:{}|{}|{};", va, vb, log.join(","), viewr(vb, 100), viewr(vb, 100)));
         }
     }
@@ -139,9 +154,10 @@ fn build_inner(c: &Case, tier: &str) -> XCase {
     atoms.insert(format!("with_copy={}", c.with_copy));
     atoms.insert(format!("raw={}", c.raw));
     atoms.insert(format!("bound={}", c.bound));
+    atoms.insert(format!("special={}", c.special));
     atoms.insert(format!("nvariants={}", nv));
     XCase {
-        text: format!("{} {} {}", c.entry.name(), list, item.print()),
+        text: format!("{} {} {}{}", c.entry.name(), list, if c.special == 3 { "#[repr(C)] " } else { "" }, item.print()),
         code: s,
         expected: exp,
         atoms,
@@ -156,7 +172,7 @@ fn build_inner(c: &Case, tier: &str) -> XCase {
 
 pub fn run(ctx: &Ctx, rep: &mut Report) {
     let thorough = ctx.tier.is_thorough();
-    rep.rule = "terminal state = (struct/enum shape from Sh(n_v, n_f), concrete or generic field types, entry point); inner enumeration = clone of every variant and clone_from for ALL ordered pairs of variants (fields carry unique identities, calls are logged); distinct by program text; non-trivial = at least one field".into();
+    rep.rule = "terminal state = (struct/enum shape from Sh(n_v, n_f), concrete or generic field types [Rec, RecC + Copy, T / RecG<T>, RecI with inherent methods named clone / clone_from, tuple-typed (Rec, u8)], #[repr(C)] or not, raw field names or not, explicit bound or not, entry point); inner enumeration = clone of every variant and clone_from for ALL ordered pairs of variants (fields carry unique identities, calls are logged); distinct by program text; non-trivial = at least one field".into();
     rep.assumptions = vec!["reference: clone = one Clone::clone per field in declaration order; clone_from on the same variant / struct = one clone_from per field and no clone, otherwise the trace of source.clone(); afterwards target views equal to the source, source untouched".into()];
     let mut cases = Vec::new();
     if let Some(p) = &ctx.replay {
